@@ -252,12 +252,39 @@ pub fn dur_fields_case(ctx: &mut Ctx, ls: &crate::pkt::Layouts, compressed: bool
     }
 }
 
+/// the one duration a user hands to the library through the connection builder (the interval between MCI/NLP updates,
+/// a 16-bit millisecond field): in range it reaches the wire as given; out of range it is refused (the ISI cannot be
+/// encoded) — never a different interval, never "0 = no updates"
+pub fn builder_interval_case(ctx: &mut Ctx, ms: u64) {
+    let op = format!("bld.interval {}", ms);
+    ctx.oracle_eval("builder-interval");
+    let r = guard(move || {
+        let isi = insim::Builder::default().isi_interval(std::time::Duration::from_millis(ms)).isi();
+        let held = isi.interval.as_millis();
+        let enc = insim::net::Codec::new(insim::net::Mode::Compressed).encode(&insim::Packet::Isi(isi)).ok().map(|b| b.to_vec());
+        (held, enc)
+    });
+    match r {
+        None => ctx.violation("c15/builder-interval/panic", "configuring an interval panicked", &op, "an ISI or an error", "panic"),
+        Some((held, enc)) => {
+            let in_range = ms <= 65535;
+            let wire = enc.as_ref().map(|f| u16::from_le_bytes([f[10], f[11]]) as u64);
+            match (in_range, wire) {
+                (true, Some(w)) if w == ms => {},
+                (false, None) => {},
+                _ => ctx.violation(&format!("c15/builder-interval/{}", if in_range { "in-range" } else { "out-of-range" }), "an interval configured through the builder reaches the wire as a different value (or a valid one is refused)", &op, &if in_range { format!("wire {}", ms) } else { "refused".to_string() }, &format!("ISI holds {} ms, wire {:?}", held, wire)),
+            }
+        },
+    }
+}
+
 pub fn run(ctx: &mut Ctx) {
     if let Some(lines) = ctx.replay.clone() {
         let ls = crate::pkt::load_layouts();
         for l in lines {
             let w: Vec<&str> = l.split_whitespace().collect();
             match w.as_slice() {
+                ["bld.interval", ms] => builder_interval_case(ctx, ms.parse().unwrap_or(0)),
                 ["pkt.rt", m, h] => dur_fields_case(ctx, &ls, *m == "c", &unhex(h)),
                 ["dur.rd", a, b, c] => do_rd(ctx, a.parse().unwrap(), b.parse().unwrap(), c.parse().unwrap(), true),
                 ["dur.wr", a, b, c] => do_wr(ctx, a.parse().unwrap(), b.parse().unwrap(), c.parse().unwrap()),
@@ -305,6 +332,7 @@ pub fn run(ctx: &mut Ctx) {
         *ctx.distribution.entry("time fields swept in place (both modes)".into()).or_insert(0) = nf;
         ctx.exhaustive_domains.push("every scaled time field of every packet kind in place x boundary wire values x both size modes".into());
     }
+    for ms in [0u64, 1, 10, 999, 65534, 65535, 65536, 65537, 70000, 131071, 131072, 655350, 1 << 32, u64::MAX / 1000] { builder_interval_case(ctx, ms); }
     // all 65536 values of 16-bit time fields
     for &(w, s) in &COMBOS[..2] {
         for x in 0..=0xffffu64 {
